@@ -467,6 +467,9 @@ pub fn spools() -> &'static SPools {
             vec![0x61; 133],
             (0..=255u8).collect(),
             b"q128_qqqqqqqqqqqqqqqqqqqqqqqqqqqqqqqqqqqqqqqqqqqqqqqqqqqqqqqqqqqqqqqqqqqqqqqqqqqqqqqqqqqqqqqqqqqqqqqqqqqqqqqqqqqqqqqqqqqqqqqqqqqqqqqqqqqq".to_vec(),
+            // long messages: several hash blocks, and more than 2^16 bytes
+            (0..1000u32).map(|i| (i * 31 + 7) as u8).collect(),
+            (0..70_001u32).map(|i| (i * 17 + 3) as u8).collect(),
         ];
         let dsts: Vec<Vec<u8>> = vec![
             b"QUUX-V01-CS02-with-BLS12381G1_XMD:SHA-256_SSWU_RO_".to_vec(),
